@@ -32,6 +32,7 @@ func vObserveInt(label string, x int) { panic("symgo") }
 func vObserveStr(label string, s string) { panic("symgo") }
 func vIsSymbolic() bool          { panic("symgo") }
 func vOpenFiles() int            { panic("symgo") }
+func vZipContent(name, content string) { panic("symgo") }
 `
 
 const rtNative = `//go:build verif_harness
@@ -129,6 +130,7 @@ func vObserveInt(label string, x int) { fmt.Printf("SYMGO-OBS %s=%d\n", label, x
 func vObserveStr(label string, s string) { fmt.Printf("SYMGO-OBS %s=%q\n", label, s) }
 func vIsSymbolic() bool     { return false }
 func vOpenFiles() int       { return 0 }
+func vZipContent(name, content string) {}
 
 func vReplayRun(table map[string]func()) {
 	path := os.Getenv("SYMGO_CASE")
